@@ -155,24 +155,26 @@ theorem insertOp_mirror (l v : Bits) (pos : Int) :
     insertOp .lsb0 l v pos = (insertOp .msb0 l.reverse v.reverse pos).map List.reverse := by
   unfold insertOp
   simp only [List.length_reverse]
-  split
-  · simp [Except.map]
-  · generalize (if pos < 0 then pos + (l.length : Int) else pos) = p
-    split
-    · rfl
-    · rename_i hp
+  generalize (if pos < 0 then pos + (l.length : Int) else pos) = p
+  by_cases hp : ¬ (0 ≤ p ∧ p ≤ (l.length : Int))
+  · simp only [hp, if_true]; rfl
+  · simp only [hp, if_false]
+    by_cases hv : v.length = 0
+    · simp [hv, Except.map]
+    · simp only [hv, if_false]
       exact insert_mirror l v p (by omega)
 
 theorem overwriteOp_mirror (l v : Bits) (pos : Int) :
     overwriteOp .lsb0 l v pos = (overwriteOp .msb0 l.reverse v.reverse pos).map List.reverse := by
   unfold overwriteOp
   simp only [List.length_reverse]
-  split
-  · simp [Except.map]
-  · generalize (if pos < 0 then pos + (l.length : Int) else pos) = p
-    split
-    · rfl
-    · rename_i hp
+  generalize (if pos < 0 then pos + (l.length : Int) else pos) = p
+  by_cases hp : p < 0 ∨ p > (l.length : Int)
+  · simp only [hp, if_true]; rfl
+  · simp only [hp, if_false]
+    by_cases hv : v.length = 0
+    · simp [hv, Except.map]
+    · simp only [hv, if_false]
       exact overwrite_mirror l v p (by omega)
 
 theorem reverseOp_mirror (l : Bits) (start stop : Option Int) :
